@@ -238,7 +238,10 @@ class Report:
             if f.get('kind') != 'known':
                 continue
             for t in [f.get('tag')] + list(f.get('tags', [])):
-                if t and (tag == t or tag.startswith(t + '/') or fnmatch.fnmatchcase(tag, t)):
+                # a finding about what an operation returns or raises says nothing about what it does to its inputs:
+                # failures of the input-purity oracles (`…/inputs`, `…/alias`) only match a finding that names them
+                pure = tag.rsplit('/', 1)[-1] in ('inputs', 'alias')
+                if t and (tag == t or (tag.startswith(t + '/') and not pure) or fnmatch.fnmatchcase(tag, t)):
                     return f
         return None
 
